@@ -402,6 +402,28 @@ func (u *Unit) applyContract(s *State, fc *FuncContract, callee *ssa.Function, n
 			s.assume(g)
 		}
 	}
+	for _, c := range fc.Clauses {
+		if c.Kind != "sets" {
+			continue
+		}
+		m := setsRe.FindStringSubmatch(c.Expr)
+		if m == nil {
+			panic(abortUnit{fmt.Sprintf("%s:%d: bad sets clause", c.File, c.Line)})
+		}
+		old, ok := s.ghost[m[1]]
+		if !ok {
+			continue
+		}
+		t, err := mk(s, pre, extra).term(m[2])
+		if err != nil {
+			panic(abortUnit{fmt.Sprintf("%s:%d: %v", c.File, c.Line, err)})
+		}
+		if t.Sort != old.Sort {
+			panic(abortUnit{fmt.Sprintf("%s:%d: sets %s: sort %s, want %s", c.File, c.Line, m[1], t.Sort, old.Sort)})
+		}
+		nv := u.define(s, "ghost", t)
+		s.ghost[m[1]] = Term{S: nv.S, Sort: nv.Sort}
+	}
 	u.setResult(s, instr, sig, res)
 	k(s)
 }
